@@ -36,7 +36,7 @@ FLIGHTS = [
     ('AA2', 'AA1', 500, 150, 'J', '320', [0, 2, 4, 6, 8, 10, 12], 570),
     ('AA1', 'AA3', 2000, 200, 'F', '738', [0, 3, 6, 9, 12], 1439),
     ('AA3', 'AA4', 6000, 300, 'J', '77W', [1, 2], 0),
-    ('AA4', 'AA1', 7000, 50, 'C', '320', [13], 720),
+    ('AA4', 'AA1', 7000, 0, 'C', '320', [13], 720),
 ]
 D0 = dt.date(2019, 3, 4)
 T0 = int(dt.datetime(2019, 3, 4, tzinfo=dt.timezone.utc).timestamp())
